@@ -162,7 +162,9 @@ StrOf(n) == IF n.k \in {"xref", "prev"} THEN PathStr(n.ref) ELSE n.v[2]
 \* the projection of the library's trees sets it by trying the import.  By convention of the universes every name written
 \* after !call: / !bind: / !import and every string scalar is importable, a path expression or evaluated code is not.
 NoImport == <<SKey("?")>>
-ImportMark(n) == IF n.k \in {"xref", "prev", "eval", "fstr"} THEN NoImport ELSE <<>>
+\* (the string scalars of the universes / generators that are plain data rather than names; strings are opaque to TLC)
+PlainStrings == {"x", "y", "z", "v", "", "1", "12", "2.5", "yes", "8080", "808", "true", "null", "a\\b", "x{1}", "1+1"}
+ImportMark(n) == IF n.k \in {"xref", "prev", "eval", "fstr"} \/ (n.k = "scalar" /\ n.v[2] \in PlainStrings) THEN NoImport ELSE <<>>
 
 RECURSIVE Merge(_, _, _), MergeKids(_, _, _, _)
 
